@@ -79,7 +79,7 @@ type Case struct {
 	BadConfig bool   `json:"bad_config,omitempty"`
 	FaultAt   int    `json:"fault_at"` // -1 none; applies to the compare run only
 	FaultKind string `json:"fault_kind,omitempty"`
-	Perl      bool   `json:"perl,omitempty"` // use the repository's testdata/simulate-cisco.pl (Linux corpus cases)
+	Perl      bool   `json:"perl,omitempty"`       // use the repository's testdata/simulate-cisco.pl (Linux corpus cases)
 	NoLog     bool   `json:"no_log,omitempty"`     // drc without -L (do-approve always passes a log directory)
 	OddAction bool   `json:"odd_action,omitempty"` // do-approve <Action> DEVICE with an arbitrary action word
 	Action    string `json:"action,omitempty"`
@@ -227,6 +227,105 @@ func (c Case) managedVsys() []string {
 // haPermits: the HA answers under which PAN-OS may be configured (specification side).
 func haPermits(ha string) bool {
 	return ha == "off" || ha == "ap:active" || ha == "aa:active-primary" || ha == "passive-then-active"
+}
+
+// haStatePermits: the same for one member's answer.
+func haStatePermits(h HAState) bool {
+	if h.Enabled != "yes" {
+		return true
+	}
+	return h.Mode == "Active-Passive" && h.State == "active" || h.Mode == "Active-Active" && h.State == "active-primary"
+}
+
+// failedInterlocks: every interlock that refuses this device (specification side), in the order
+// hostname, ha, marker.
+func (c Case) failedInterlocks() []string {
+	var l []string
+	if c.Backend != "nsx" && c.reportedName() != c.dev() {
+		l = append(l, "hostname")
+	}
+	if c.Backend == "panos" && !haPermits(c.HA) {
+		l = append(l, "ha")
+	}
+	if c.Backend == "panos" && strings.ContainsAny(c.marks(), "us") {
+		l = append(l, "marker")
+	}
+	if c.Backend != "nsx" && c.Backend != "panos" && !c.markerShown() {
+		l = append(l, "marker")
+	}
+	return l
+}
+
+// diagNamesInterlock (specification side): the ERROR / WARNING lines of the run tell WHICH interlock
+// refused the device:
+//   - hostname: a line that speaks of the device name and contains both the expected name and the
+//     name the device reported;
+//   - marker: a line that says the banner is missing (ASA, IOS, Linux) / that NetSPoC is missing in
+//     the name of one of the managed vsys that lack it (PAN-OS);
+//   - ha: a line that says the device is not in active state.
+//
+// One of the interlocks that fail for this device must be named.
+func (c Case) diagNamesInterlock(r runResult) bool {
+	var msgs []string
+	for _, l := range strings.Split(r.stderr+"\n"+r.stdout, "\n") {
+		if strings.Contains(l, "ERROR>>>") || strings.Contains(l, "WARNING>>>") {
+			msgs = append(msgs, l)
+		}
+	}
+	for _, il := range c.failedInterlocks() {
+		for _, m := range msgs {
+			lm := strings.ToLower(m)
+			switch il {
+			case "hostname":
+				if strings.Contains(lm, "device name") && strings.Contains(m, c.dev()) && strings.Contains(m, c.reportedName()) &&
+					strings.Contains(lm, "expected") {
+					return true
+				}
+			case "marker":
+				if c.Backend == "panos" {
+					for i, mk := range c.marks() {
+						if (mk == 'u' || mk == 's') && strings.Contains(lm, "missing netspoc in name of") &&
+							strings.Contains(m, fmt.Sprintf("vsys%d", i+1)) {
+							return true
+						}
+					}
+				} else if strings.Contains(lm, "missing banner") {
+					return true
+				}
+			case "ha":
+				if strings.Contains(lm, "not in active state") {
+					return true
+				}
+			}
+		}
+	}
+	return false
+}
+
+// markerClass: in which way the device fails to show the marker (from the input only).
+func (c Case) markerClass() string {
+	if c.Backend == "panos" {
+		return "vsys_display_name:" + c.marks()
+	}
+	text, ok := c.configured()
+	if !ok {
+		return "not_configured"
+	}
+	re, err := regexp.Compile(text)
+	if err != nil {
+		return "configured_text_is_no_regexp"
+	}
+	shown := c.markerText()
+	switch {
+	case c.MarkerText == "" && c.Marker == "absent":
+		return "absent"
+	case re.MatchString(shown):
+		return "split_over_lines" // Linux: the whole text matches, no single line does
+	}
+	if ri, err := regexp.Compile("(?i)" + text); err == nil && ri.MatchString(shown) {
+		return "other_letter_case"
+	}
+	return "other_text"
 }
 
 func (c Case) canon() string { return JSONStr(c) }
@@ -386,6 +485,15 @@ var haAll = []string{"off",
 	"aa:active-primary", "aa:active-secondary", "aa:tentative", "aa:suspended", "aa:initial", "aa:non-functional", "aa:active", "aa:unknown-word",
 	"xx:active", "xx:active-primary"}
 
+// memberHostnames: the host name each member of a PAN-OS pair has in its own configuration (its
+// entry of the name list); the member that may be configured reports what the case says.
+func (c Case) memberHostnames() []string {
+	if c.Backend == "panos" && c.HA == "passive-then-active" {
+		return []string{c.dev() + "-a", c.reportedName()}
+	}
+	return nil
+}
+
 func (c Case) names() []string {
 	if c.Backend == "panos" && c.HA == "passive-then-active" {
 		return []string{c.dev() + "-a", c.dev()}
@@ -421,6 +529,8 @@ type runResult struct {
 	crashed  bool
 	lines    []string // what the device received, canonical (CLI: raw lines; HTTP: canonical items)
 	kinds    []string // device-side classification per line
+	members  []int    // PAN-OS: member of the HA pair each request was addressed to
+	grepAns  []int    // Linux: lines answered to `grep … /etc/issue` (-1: no such line / unknown)
 	hashPre  string
 	hashPost string
 	plan     []string // from the .cmp file (compare run)
@@ -544,17 +654,15 @@ func (w *world) runOnce(c Case, compare bool, tag string) runResult {
 	}
 	var sim *httpSim
 	transcript := filepath.Join(w.dir, "transcript."+tag)
-	initial := ""
 	if c.isHTTP() {
 		dev, _ := c.httpIdx()
 		scn := HttpScn{Type: map[string]string{"panos": "PAN-OS", "nsx": "NSX"}[c.Backend], Hostname: c.reportedName(),
-			HA: c.haStates(), Vsys: c.vsys(), Managed: c.managedVsys(), Dirty: c.Dirty, DevRules: dev, DevSvcs: dev,
+			HA: c.haStates(), Hostnames: c.memberHostnames(), Vsys: c.vsys(), Managed: c.managedVsys(), Dirty: c.Dirty, DevRules: dev, DevSvcs: dev,
 			NsxPolicies: c.nsxPolicyIDs(), PageSize: c.PageSize, GroupPages: c.GroupPages, Pend: c.Pend,
 			BadConfig: c.BadConfig, FaultAt: -1}
 		if compare && c.FaultAt >= 0 {
 			scn.FaultAt, scn.FaultKind = c.FaultAt, c.FaultKind
 		}
-		initial = JSONStr(scn.DevRules)
 		sim = newHTTPSim(scn)
 		defer sim.Close()
 		env = append(env, "SIMULATE_ROUTER="+sim.srv.URL)
@@ -562,10 +670,8 @@ func (w *world) runOnce(c Case, compare bool, tag string) runResult {
 		scnFile := filepath.Join(w.dir, "scenario."+tag)
 		os.WriteFile(scnFile, []byte(perlScenario(c)), 0644)
 		env = append(env, "SIMULATE_ROUTER="+w.self+" tee "+transcript+" "+w.perl+" "+defaultDevName+" "+scnFile)
-		initial = "perl"
 	} else {
 		scn := w.cliScenario(c, compare, transcript)
-		initial = scn.Config + scn.Routes
 		scnFile := filepath.Join(w.dir, "scenario."+tag+".json")
 		os.WriteFile(scnFile, []byte(JSONStr(scn)), 0644)
 		env = append(env, "SIMULATE_ROUTER="+w.self+" sim "+scnFile)
@@ -593,18 +699,22 @@ func (w *world) runOnce(c Case, compare bool, tag string) runResult {
 		for _, r := range reqs {
 			res.lines = append(res.lines, r.Canon)
 			res.kinds = append(res.kinds, r.Kind)
+			res.members = append(res.members, r.Member)
 		}
-		res.hashPre = httpStateHash(initial, nil)
-		res.hashPost = httpStateHash(initial, reqs)
+		res.hashPre, res.hashPost = sim.hashes()
 	} else {
 		// the simulator flushes its transcript line by line; give a killed child a moment
 		tr := readTranscript(transcript)
 		for _, l := range tr {
 			res.lines = append(res.lines, l.Line)
 			res.kinds = append(res.kinds, l.Kind)
+			res.grepAns = append(res.grepAns, l.Ans)
 		}
-		res.hashPre = stateHash(initial, nil)
-		res.hashPost = stateHash(initial, tr)
+		devConfig, routes, _ := c.cliTexts()
+		if c.Perl {
+			devConfig, routes = "", ""
+		}
+		res.hashPre, res.hashPost = cliStateHashes(map[string]string{"asa": "ASA", "ios": "IOS", "linux": "Linux"}[c.Backend], devConfig, routes, tr)
 	}
 	if compare {
 		logDir := filepath.Join(w.dir, "log")
@@ -977,7 +1087,7 @@ func teeMain(transcript string, argv []string) {
 			buf = append(buf, one[0])
 			if one[0] == '\n' {
 				line := strings.TrimRight(string(buf), "\r\n")
-				rec, _ := json.Marshal(SimLine{n, line, s.classify(line), "exec"})
+				rec, _ := json.Marshal(SimLine{n, line, s.classify(line), "exec", -1})
 				tr.Write(append(rec, '\n'))
 				n++
 				in.Write(buf)
@@ -1386,7 +1496,7 @@ func judge(res *Result, o outcome, prop string, mu *sync.Mutex) {
 	}
 
 	// ---- tie: model vs implementation, both runs
-	cmpRun := func(tag string, r runResult, m modelAnswer) {
+	cmpRun := func(tag string, r runResult, m modelAnswer) bool {
 		res.TracesVsImpl++
 		implExit := r.exit
 		if r.crashed {
@@ -1418,11 +1528,11 @@ func judge(res *Result, o outcome, prop string, mu *sync.Mutex) {
 		model := fmt.Sprintf("exit=%d diag=%v lines=%s", m.exit, m.diag, strings.Join(dropExit(m.lines), " | "))
 		if r.timedOut {
 			res.Disagree("c06 "+tag+" run timed out", c, impl, model)
-			return
+			return false
 		}
 		if impl != model {
 			res.Disagree("c06 "+tag+" transcript/exit/diagnostic", c, impl+"\nstderr: "+tail(r.stderr+r.stdout, 400), model+"\n"+m.status)
-			return
+			return false
 		}
 		for i := range r.kinds {
 			if len(r.kinds) != len(r.lines) || len(m.kinds) != len(m.lines) {
@@ -1431,10 +1541,11 @@ func judge(res *Result, o outcome, prop string, mu *sync.Mutex) {
 			if i < len(m.kinds) && kindClass(r.kinds[i]) != modelKindClass(m.kinds[i]) {
 				res.Disagree("c06 "+tag+" classification of request", c,
 					r.lines[i]+" => "+r.kinds[i], m.lines[i]+" => "+m.kinds[i])
-				return
+				return false
 			}
 		}
 		res.Count(tag + ":exit=" + strconv.Itoa(implExit))
+		return true
 	}
 	if c.OddAction {
 		cmpRun("odd-action", o.cmp, o.mcmp)
@@ -1461,8 +1572,9 @@ func judge(res *Result, o outcome, prop string, mu *sync.Mutex) {
 		return
 	}
 	cmpRun("compare", o.cmp, o.mcmp)
+	aprAgrees := false
 	if o.ranApr {
-		cmpRun("approve", o.apr, o.mapr)
+		aprAgrees = cmpRun("approve", o.apr, o.mapr)
 	}
 
 	// ---- oracle C11: compare never changes the device
@@ -1487,28 +1599,83 @@ func judge(res *Result, o outcome, prop string, mu *sync.Mutex) {
 	// ---- oracle C06
 	a := o.apr
 	changed, idx := hasChange(a.kinds)
+	// PAN-OS pair: nothing that changes or commits may be addressed to a member that is not the
+	// active one (the members are told apart by their API keys)
+	if c.Backend == "panos" {
+		hs := c.haStates()
+		for i, k := range a.kinds {
+			if (k == "change" || k == "save") && i < len(a.members) {
+				m := a.members[i]
+				if m < 1 || m > len(hs) {
+					res.Fail(map[string]any{"pred": "other", "backend": c.Backend, "violation": "change_with_unknown_key"},
+						"approve sent "+a.lines[i]+" with an API key no member had issued", c)
+					break
+				}
+				if !haStatePermits(hs[m-1]) {
+					res.Fail(map[string]any{"pred": "other", "backend": c.Backend, "interlock": "ha", "violation": "change_sent_to_inactive_member"},
+						fmt.Sprintf("approve sent %s to member %d of the pair, which reports %s / %s", a.lines[i], m, hs[m-1].Mode, hs[m-1].State), c)
+					break
+				}
+			}
+		}
+	}
 	switch {
 	case il != "":
-		bad := ""
+		// what went wrong, most serious first
+		violation, bad := "", ""
+		otherReason := c.BadConfig || c.Login == "enable-refused" // a legitimate refusal that may come before the interlock
 		switch {
 		case changed:
-			bad = "sent " + a.lines[idx] + " after a failed " + il + " interlock"
-		case a.exit == 0:
-			bad = "exit status 0 after a failed " + il + " interlock"
+			violation, bad = "change_sent", "sent "+a.lines[idx]+" after a failed "+il+" interlock"
 		case a.crashed:
-			bad = "crashed"
+			violation, bad = "crashed", "crashed"
+		case a.exit == 0:
+			violation, bad = "exit_0_nothing_sent", "exit status 0 after a failed "+il+" interlock"
 		case !a.diag():
-			bad = "no ERROR line after a failed " + il + " interlock"
+			violation, bad = "no_diagnostic", "no ERROR line after a failed "+il+" interlock"
+		case !otherReason && !c.diagNamesInterlock(a):
+			violation, bad = "wrong_diagnostic", "the diagnostic names none of the failed interlocks "+strings.Join(c.failedInterlocks(), ", ")+
+				": "+tail(a.stderr+a.stdout, 300)
 		}
 		if bad != "" {
-			pred := "other"
-			if c.Backend == "linux" && il == "marker" {
-				pred = "linux_marker_absent_gate_returns_nil"
+			sig := map[string]any{"pred": "other", "backend": c.Backend, "interlock": il, "violation": violation}
+			if il == "marker" {
+				sig["marker_class"] = c.markerClass()
 			}
-			res.Fail(map[string]any{"pred": pred, "backend": c.Backend, "interlock": il},
-				fmt.Sprintf("approve (%s) of a %s device with failed %s interlock: %s", c.Front, c.Backend, il, bad), c)
+			if changed && a.exit != 0 {
+				sig["violation"] = "change_sent_then_error"
+			}
+			// F-C06a (known): Linux, the marker is configured, the code asked `grep '<configured>' /etc/issue`,
+			// the device answered nothing, and approve went on exactly as the Lean model of the UNCHANGED code
+			// predicts (GetErrUnmanaged returns nil): exit 0, changes sent iff pending.  Anything else about
+			// the Linux marker interlock is a new failure.
+			if c.Backend == "linux" && il == "marker" && a.exit == 0 && !a.crashed && (violation == "change_sent" || violation == "exit_0_nothing_sent") {
+				text, _ := c.configured()
+				asked, answer := false, -2
+				for i, l := range a.lines {
+					if l == "grep '"+text+"' /etc/issue" {
+						asked = true
+						if i < len(a.grepAns) {
+							answer = a.grepAns[i]
+						}
+					}
+				}
+				sig["grep_asked"] = asked
+				sig["grep_answer"] = map[int]string{0: "empty", -1: "unknown", -2: "unknown"}[answer]
+				if answer > 0 {
+					sig["grep_answer"] = "non-empty"
+				}
+				sig["model_predicts"] = aprAgrees
+				if asked && answer <= 0 && aprAgrees {
+					sig["pred"] = "linux_marker_absent_gate_returns_nil"
+				}
+			}
+			res.Fail(sig, fmt.Sprintf("approve (%s) of a %s device with failed %s interlock: %s", c.Front, c.Backend, il, bad), c)
 		} else {
 			res.Count("refused:" + il)
+			if otherReason {
+				res.Count("refused:" + il + ":diagnostic-not-judged(other refusal first)")
+			}
 		}
 	case c.cfgRejected():
 		bad := ""
